@@ -149,8 +149,8 @@ class FXDoubleDigitalOption:
                 lower_digital = s0 * np.exp(-r_f * t_del) * n_vect(-lower_d2)
                 upper_digital = s0 * np.exp(-r_f * t_del) * n_vect(-upper_d2)
             elif self.prem_currency == self.dom_name:
-                lower_digital = np.exp(-r_f * t_del) * n_vect(-lower_d2)
-                upper_digital = np.exp(-r_f * t_del) * n_vect(-upper_d2)
+                lower_digital = np.exp(-r_d * t_del) * n_vect(-lower_d2)
+                upper_digital = np.exp(-r_d * t_del) * n_vect(-upper_d2)
 
             v = (upper_digital - lower_digital) * self.notional
 
